@@ -14,7 +14,7 @@ import (
 	"sort"
 )
 
-const MaxThreads = 4
+const MaxThreads = 6
 
 type VC [MaxThreads]int
 
